@@ -11,6 +11,7 @@ import numpy
 
 from mpv import arr, ref, cmdgen
 
+ANCHORS = ['mpilot/libraries/eems/basic.py:Sum.execute', 'mpilot/libraries/eems/basic.py:WeightedSum.execute', 'mpilot/libraries/eems/basic.py:Multiply.execute', 'mpilot/libraries/eems/basic.py:AMinusB.execute', 'mpilot/libraries/eems/basic.py:ADividedByB.execute', 'mpilot/libraries/eems/basic.py:Minimum.execute', 'mpilot/libraries/eems/basic.py:Maximum.execute', 'mpilot/libraries/eems/basic.py:Mean.execute', 'mpilot/libraries/eems/basic.py:WeightedMean.execute', 'mpilot/libraries/eems/basic.py:Copy.execute', 'mpilot/libraries/eems/mixins.py:SameArrayShapeMixin.validate_array_shapes']   # repository functions the workload must enter (reported as anchors_reached / anchors_missed)
 LEVEL = "exploration"
 RULE = ("random lattice arrays (multiples of 1/8, zeros, negatives) for the ten arithmetic commands, every int64/float64 assignment "
         "for n<=4 inputs (sampled for 5), input orders permuted, weights int/float/mixed; plus single-fault cases (shape, weight count, "
